@@ -123,7 +123,7 @@ class ProgressBar(Widget):
         cs = 0
         if self.satt is not None:
             cs = int((cf - ccol) * 8)
-        if ccol < 0 or (ccol == cs == 0):
+        if ccol < 0 or (ccol == cs == 0) or (ccol == 0 and not (cs and c._text[0][ccol] == 32)):
             c._attr = [[(self.normal, maxcol)]]
         elif ccol >= maxcol:
             c._attr = [[(self.complete, maxcol)]]
